@@ -239,7 +239,9 @@ vars == <<now, slot, expSeen, clk, op, reply, met, cnt>>
 Spec == Init /\ [][Next]_vars
 
 View == <<now, slot, expSeen>>
+ViewClk == <<now, slot, expSeen, clk>>
 Bounded == clk <= MaxOps
+CBound == \A h \in Slots : slot[h].c <= 2     \* bound of LFU counters in exhaustive runs
 
 ---------------------------------------------------------------------------
 (* Abstraction to the reference map and refinement (C07).  Valid for an     *)
